@@ -9,6 +9,7 @@ import (
 	"github.com/mandykoh/prism/meta/icc"
 
 	"verif/engine/ev"
+	"verif/gen"
 	"verif/refs"
 )
 
@@ -63,7 +64,7 @@ func cmpHeader(h icc.Header, ref refs.RefHeader) string {
 func C16(tier string) {
 	r := ev.Begin("C16", tier, "exploration")
 	r.NotExhaustive()
-	r.Rule("128-byte headers with the acsp signature and an empty tag table: all-zero, all-ones, walking ones and walking zeros over all 1,024 bit positions (on two backgrounds), every byte lane through 0..255 on three backgrounds, all 65,536 values of the two version bytes, every valid value of each date-time component with the others held at two settings, all 16 combinations of flag bits 0/1/30/31; every single-bit and single-byte change of the signature must be rejected; each through a plain byte reader and a 16-byte bufio reader; thorough adds all 65,536 values of each of the 64 aligned half-words on two backgrounds; distinct = distinct header byte strings; plus every sequence of up to 4 (thorough 5) Read/Description operations over five profiles built to collide (same profile ID, different flags/intent/version), each header compared with the independent decode")
+	r.Rule("128-byte headers with the acsp signature and an empty tag table: all-zero, all-ones, walking ones and walking zeros over all 1,024 bit positions (on seven backgrounds incl. two realistic headers), every byte lane through 0..255 on three backgrounds, all 65,536 values of the two version bytes, every valid value of each date-time component with the others held at two settings, all 16 combinations of flag bits 0/1/30/31; every single-bit and single-byte change of the signature must be rejected; each through a plain byte reader and a 16-byte bufio reader; thorough adds all 65,536 values of each of the 64 aligned half-words on two backgrounds; distinct = distinct header byte strings; plus every sequence of up to 4 (thorough 5) Read/Description operations over five profiles built to collide (same profile ID, different flags/intent/version), each header compared with the independent decode")
 	r.Assume("CreatedAt is compared only when the six date-time numbers form a valid calendar instant (the property quantifies over valid components); an invalid dateTimeNumber must still not disturb any other field")
 	r.Assume("a decoder that reads each field from a fixed byte range is what the walking patterns characterise: every header bit is shown to feed exactly the field ICC.1 assigns it to, on the backgrounds tried")
 	seen := map[string]bool{}
@@ -123,9 +124,13 @@ func C16(tier string) {
 	try(dated(0), "zero + valid date")
 	try(dated(0xFF), "ones + valid date")
 	for bit := 0; bit < 1024; bit++ {
-		for _, bg := range []string{"zero", "dated-zero", "ones", "dated-ones", "0x5A"} {
+		for _, bg := range []string{"zero", "dated-zero", "ones", "dated-ones", "0x5A", "real-v2", "real-v4"} {
 			var h []byte
 			switch bg {
+			case "real-v2":
+				h = gen.ICCHeader(2)
+			case "real-v4":
+				h = gen.ICCHeader(4)
 			case "zero":
 				h = base(0)
 			case "dated-zero":
@@ -148,6 +153,9 @@ func C16(tier string) {
 				h[pos] = byte(v)
 				try(h, fmt.Sprintf("byte %d = %#02x on %#02x background", pos, v, fill))
 			}
+			hr := gen.ICCHeader(4)
+			hr[pos] = byte(v)
+			try(hr, fmt.Sprintf("byte %d = %#02x on a realistic v4 header", pos, v))
 		}
 	}
 	if tier == "thorough" {
